@@ -110,6 +110,9 @@ pub(crate) const K_NEWCLUSTER: u8 = 7; // mark_new_cluster(cluster number)
 pub(crate) const K_POPULATE: u8 = 8; // populate_*_write_mapping(s)
 pub(crate) const K_DISCARD1: u8 = 9; // __discard_one_cluster(guest)
 pub(crate) const K_ALLOC: u8 = 10; // allocate_clusters(count)
+pub(crate) const K_FLUSH_CACHE: u8 = 11; // flush_cache(cache, start key, end key)
+pub(crate) const K_FSYNC: u8 = 12; // call_fsync
+pub(crate) const K_GROW_RT: u8 = 13; // grow_reftable
 
 const NOREC: Rec = Rec { kind: K_NONE, entry: 0, off: 0, len: 0, buf_start: 0, flags: 0 };
 
@@ -177,6 +180,8 @@ pub(crate) struct KEnv {
     /// host offset the allocator shim hands out
     pub alloc_off: u64,
     pub alloc_cnt: usize,
+    pub cache_dirty: Cell<bool>,
+    pub fail_write: Cell<bool>,
 }
 
 impl KEnv {
@@ -196,6 +201,8 @@ impl KEnv {
             rb_slice: None,
             alloc_off: 0,
             alloc_cnt: 0,
+            cache_dirty: Cell::new(false),
+            fail_write: Cell::new(false),
         }
     }
 
@@ -299,12 +306,54 @@ impl KEnv {
         self.rec(Rec { kind: K_ALLOC, len: count, ..NOREC });
         Ok(Some((self.alloc_off, self.alloc_cnt)))
     }
-    pub fn k_call_read(&self, off: u64, len: usize) -> KResult<usize> {
-        self.rec(Rec { kind: K_BACKEND_READ, off, len, ..NOREC });
-        Ok(len)
+    pub fn k_call_read<B: KLen + ?Sized>(&self, off: u64, buf: &mut B) -> KResult<usize> {
+        self.rec(Rec { kind: K_BACKEND_READ, off, len: buf.klen(), ..NOREC });
+        Ok(buf.klen())
     }
-    pub fn k_call_write(&self, off: u64, len: usize) -> KResult<()> {
-        self.rec(Rec { kind: K_BACKEND_WRITE, off, len, ..NOREC });
+    pub fn k_call_write<B: KLen + ?Sized>(&self, off: u64, buf: &B) -> KResult<()> {
+        self.rec(Rec { kind: K_BACKEND_WRITE, off, len: buf.klen(), ..NOREC });
+        if self.fail_write.get() {
+            return Err(KErr);
+        }
         Ok(())
+    }
+    /// flush_table(t, start, size): a write of `size` bytes at the table's host offset + start
+    pub fn k_flush_table<B: Table>(&self, t: &B, start: u32, size: usize) -> KResult<()> {
+        self.rec(Rec { kind: K_BACKEND_WRITE, off: t.get_offset().unwrap() + start as u64, len: size,
+                       buf_start: start as usize, ..NOREC });
+        Ok(())
+    }
+    /// flush_cache(cache, start, end): flush the dirty slices with start <= key < end
+    pub fn k_flush_cache(&self, start: usize, end: usize) -> KResult<bool> {
+        self.rec(Rec { kind: K_FLUSH_CACHE, off: start as u64, len: end, ..NOREC });
+        Ok(self.cache_dirty.get())
+    }
+    pub fn k_call_fsync(&self, off: u64, len: usize, flags: u32) -> KResult<()> {
+        self.rec(Rec { kind: K_FSYNC, off, len, flags, ..NOREC });
+        Ok(())
+    }
+    pub fn k_grow_reftable<R>(&self, _old: &R, grown: &mut crate::meta::RefTable) -> KResult<()> {
+        self.rec(Rec { kind: K_GROW_RT, len: grown.entries(), ..NOREC });
+        Ok(())
+    }
+}
+
+/// length of whatever a backend request is handed
+pub(crate) trait KLen {
+    fn klen(&self) -> usize;
+}
+impl KLen for [u8] {
+    fn klen(&self) -> usize {
+        self.len()
+    }
+}
+impl KLen for Vec<u8> {
+    fn klen(&self) -> usize {
+        self.len()
+    }
+}
+impl KLen for crate::helpers::Qcow2IoBuf<u8> {
+    fn klen(&self) -> usize {
+        self.len()
     }
 }
